@@ -7,11 +7,12 @@ import (
 )
 
 // A small file-system model with crash semantics (DESIGN A.7):
-//   open with O_TRUNC  -> length 0 durable at once
-//   write              -> volatile; at a crash any prefix of the unsynced bytes may be durable
-//   sync               -> everything written is durable
-//   close              -> nothing
-//   rename             -> atomic and durable; the renamed file keeps its own durable/volatile images
+//
+//	open with O_TRUNC  -> length 0 durable at once
+//	write              -> volatile; at a crash any prefix of the unsynced bytes may be durable
+//	sync               -> everything written is durable
+//	close              -> nothing
+//	rename             -> atomic and durable; the renamed file keeps its own durable/volatile images
 type vfile struct {
 	exists   bool
 	durable  []*Term
